@@ -139,6 +139,26 @@ def structured_cnf(draw):
 
 
 @st.composite
+def duplicate_cnf(draw):
+    """Long clauses listed two or three times (equal, separate list objects) next to short ones: valid input that
+    exposes any sharing of per-clause state (watch positions, reason indices) between equal clauses."""
+    n = draw(st.integers(4, 7))
+    vs = list(range(1, n + 1))
+    lit = st.builds(lambda v, s: v if s else -v, st.sampled_from(vs), st.booleans())
+    cl = []
+    for _ in range(draw(st.integers(2, 5))):
+        k = draw(st.integers(3, 4))
+        idx = draw(st.lists(st.sampled_from(vs), min_size=k, max_size=k, unique=True))
+        c = [v if draw(st.booleans()) else -v for v in idx]
+        for _ in range(draw(st.integers(1, 3))):
+            cl.append(list(c))
+    for _ in range(draw(st.integers(1, 4))):
+        cl.append([draw(lit) for _ in range(draw(st.integers(1, 2)))])
+    cl = [list(c) for c in draw(st.permutations(cl))]
+    return {"family": "duplicate", "clauses": cl, "assumptions": draw(assumptions_for(vs, extra_ok=False)) if draw(st.integers(0, 3)) == 0 else [], "opts": draw(options(big=True))}
+
+
+@st.composite
 def gadget_cnf(draw):
     """Implication chains and guarded contradictions: decisions propagate several variables at once, conflicts jump
     back over them and force the parent the other way - search histories that uniform random clauses rarely produce."""
@@ -186,4 +206,4 @@ def deep_cnf(draw, lo=10, hi=13):
 
 def mixed(tier):
     nmax = 40
-    return st.one_of(small_cnf(), small_cnf(), threshold_cnf(nmax), structured_cnf(), gadget_cnf(), gadget_cnf())
+    return st.one_of(small_cnf(), small_cnf(), threshold_cnf(nmax), structured_cnf(), gadget_cnf(), duplicate_cnf())
